@@ -1,5 +1,6 @@
 import HeraProofs.Props.C19
 import HeraProofs.Props.C19b
+import HeraProofs.Props.C19c
 open Hera
 #print axioms C19_div_mod
 #print axioms fdiv_fmod_bounds
@@ -13,3 +14,9 @@ open Hera
 #print axioms C19_not
 #print axioms malloc_tail
 #print axioms C19_malloc
+#print axioms s_size_code_is_ops
+#print axioms s_ord_code_is_ops
+#print axioms s_not_code_is_ops
+#print axioms C19_size_stack
+#print axioms C19_ord_stack
+#print axioms C19_not_stack
